@@ -644,6 +644,9 @@ class Executor:
                 if isinstance(a, Obj) and a.cls is not None and self.repo is not None and isinstance(node.args[1], ast.Name):
                     if self.repo.is_subclass(a.cls, node.args[1].id):
                         return Const(True)
+                if isinstance(a, Const) and cn in ("int", "str", "float", "bool", "bytes", "tuple", "list", "dict"):
+                    # a literal's type is known (bool is an int in Python)
+                    return Const(isinstance(a.value, {"int": int, "str": str, "float": float, "bool": bool, "bytes": bytes, "tuple": tuple, "list": list, "dict": dict}[cn]))
                 return Const(self.ask_bool(f"isinstance:{vkey(a)}:{cn}"))
             if fn in ("__cast__",) and len(node.args) == 2:
                 return self.ev(node.args[1], env)
@@ -1169,9 +1172,9 @@ def _component_feasible(atoms, comp, box):
         for a, c in l.terms.items():
             coefs[idx[a]] = int(c * den)
         rows.append((coefs, int(l.const * den), s))
-    rng = range(-box, box + 1)
     n = len(atoms)
-    for combo in itertools.product(rng, repeat=n):
+    cands, big = _candidates(n, [(coefs, k) for coefs, k, _ in rows], box)
+    for combo in itertools.product(*cands):
         ok = True
         for coefs, k, s in rows:
             v = k
@@ -1182,7 +1185,24 @@ def _component_feasible(atoms, comp, box):
                 break
         if ok:
             return True
-    return False
+    # constants far outside the search box and several atoms: a model may exist that the search did not try -
+    # keep the row (a row is only ever dropped when infeasibility is certain within the explored values)
+    return bool(big and n > 1)
+
+
+def _candidates(n, rows, box):
+    """Values tried per atom: the small box, plus the neighbourhood of every threshold  -k/c  a constraint puts on
+    the atom (so that  x <= 10000  has models on both sides)."""
+    vals = [set(range(-box, box + 1)) for _ in range(n)]
+    big = False
+    for coefs, k in rows:
+        if abs(k) > box:
+            big = True
+            for i, c in enumerate(coefs):
+                if c:
+                    t = -k // c
+                    vals[i] |= {t - 1, t, t + 1}
+    return [sorted(v) for v in vals], big
 
 
 # make ask_sign register forms so that feasibility can see them
@@ -1243,8 +1263,10 @@ def entails(valuation: dict, op, a: Lin, b: Lin, box=4, integer=True):
     icons = [(ints(l), sgn) for l, sgn in cons]
     dt, dc = ints(d)
     neg = {ast.Lt: lambda v: v >= 0, ast.LtE: lambda v: v > 0, ast.Gt: lambda v: v <= 0, ast.GtE: lambda v: v < 0, ast.Eq: lambda v: v != 0, ast.NotEq: lambda v: v == 0}[type(op)]
-    rng = range(-box, box + 1)
-    for combo in itertools.product(rng, repeat=len(atoms)):
+    idx = {a_: i for i, a_ in enumerate(atoms)}
+    crow = lambda terms, const: ([terms.get(a_, 0) for a_ in atoms], const)
+    cands, _big = _candidates(len(atoms), [crow(t, c) for (t, c), _ in icons] + [crow(dt, dc)], box)
+    for combo in itertools.product(*cands):
         m = dict(zip(atoms, combo))
         ok = True
         for (terms, const), sgn in icons:
